@@ -98,6 +98,7 @@ def main():
     ap.add_argument("--max", type=int, default=0)
     ap.add_argument("--start", type=int, default=0)
     ap.add_argument("--ops", default="")
+    ap.add_argument("--test-timeout", type=int, default=900, help="go test -timeout in seconds (a mutant that makes the suite hang is killed by it)")
     ap.add_argument("--baseline", action="store_true", help="run the checks on the unmutated worktree and exit")
     ap.add_argument("files", nargs="*")
     a = ap.parse_args()
@@ -135,7 +136,7 @@ def main():
                     if rc != 0:
                         verdict = "nocompile"
                     else:
-                        rc, o = sh(["go", "test", "-count=1", "-timeout", "900s"] + a.tests.split(), cwd=a.wt, timeout=1200)
+                        rc, o = sh(["go", "test", "-count=1", "-timeout", "%ds" % a.test_timeout] + a.tests.split(), cwd=a.wt, timeout=a.test_timeout + 300)
                         verdict = "killed-by-tests" if rc != 0 else run_checks(a, tag)
             finally:
                 open(path, "w").write(orig)
